@@ -2341,3 +2341,103 @@ example : matchFrom ("a (b [c] d) e".toList.map (fun c => [c])) 2 = some 10 ∧
     matchFrom ("a (b [c] d) e".toList.map (fun c => [c])) 10 = some 2 := by decide
 
 end Vicut.DelimThms
+namespace Vicut.DelimThms
+open Vicut Vicut.Delim
+
+theorem partner_symm_bwd (g tgt : Gr) (h : partner g = some (tgt, false)) : partner tgt = some (g, true) := by
+  unfold partner at h
+  repeat' split at h
+  all_goals first | (simp at h; obtain ⟨rfl, _⟩ := h; subst_vars; decide) | simp at h
+
+/-- **… and on a closer**: from a closer `%` lands on an opener from which `%` comes back. -/
+theorem matchFrom_involutive_bwd (gs : List Gr) (idx j : Nat) (g tgt : Gr)
+    (hg : gs[idx]? = some g) (hp : partner g = some (tgt, false)) (h : matchFrom gs idx = some j) :
+    matchFrom gs j = some idx := by
+  have hne := partner_ne g tgt false hp
+  obtain ⟨k, hj, hgj, hb, hpos⟩ := matchFrom_backward gs idx j g tgt hg hp h
+  subst hj
+  have hp' := partner_symm_bwd g tgt hp
+  have hidx : j + 1 + k < gs.length := (List.getElem?_eq_some_iff.mp hg).1
+  have hjlt : j < gs.length := by omega
+  unfold matchFrom
+  simp only [hgj, hp']
+  have hd : gs.drop j = tgt :: gs.drop (j + 1) := by
+    rw [List.drop_eq_getElem_cons hjlt]
+    simp [List.getElem?_eq_getElem hjlt] at hgj
+    rw [hgj]
+  rw [hd]
+  unfold scanMatch
+  simp only [if_true]
+  obtain ⟨zs, hzs⟩ : ∃ zs, zs = gs.drop (j + 1) := ⟨_, rfl⟩
+  obtain ⟨T, hT⟩ : ∃ T, T = zs.take k := ⟨_, rfl⟩
+  have hTlen : T.length = k := by simp [hT, hzs]; omega
+  have hsplit : gs.take (j + 1 + k) = gs.take (j + 1) ++ T := by
+    rw [List.take_add, hT, hzs]
+  have hhead : (gs.take (j + 1)).reverse = tgt :: (gs.take j).reverse := by
+    rw [List.take_succ_eq_append_getElem hjlt]
+    simp [List.getElem?_eq_getElem hjlt] at hgj
+    simp [hgj]
+  have hys : (gs.take (j + 1 + k)).reverse = T.reverse ++ tgt :: (gs.take j).reverse := by
+    rw [hsplit, List.reverse_append, hhead]
+  rw [hys] at hb hpos
+  have hzk : zs[k]? = some g := by
+    simpa [hzs, List.getElem?_drop, Nat.add_assoc] using hg
+  have htk1 : zs.take (k + 1) = T ++ [g] := by
+    have hlt : k < zs.length := (List.getElem?_eq_some_iff.mp hzk).1
+    rw [List.take_succ_eq_append_getElem hlt]
+    simp [List.getElem?_eq_getElem hlt] at hzk
+    simp [hT, hzk]
+  have hbal : T.count g = T.count tgt := by
+    have : (T.reverse ++ tgt :: (gs.take j).reverse).take (k + 1) = T.reverse ++ [tgt] := by
+      rw [List.take_append]
+      have e : List.take (k + 1) T.reverse = T.reverse := List.take_of_length_le (by simp [hTlen])
+      simp [hTlen, e]
+    rw [this] at hb
+    simp [List.count_append, hne, Ne.symm hne] at hb
+    omega
+  have hsuffix : ∀ n, n ≤ k → (T.drop n).count tgt ≤ (T.drop n).count g := by
+    intro n hn
+    rcases Nat.lt_or_ge n k with hlt | hge
+    · have hi := hpos (k - n - 1) (by omega)
+      have : (T.reverse ++ tgt :: (gs.take j).reverse).take (k - n - 1 + 1) = (T.drop n).reverse := by
+        rw [List.take_append_of_le_length (by simp [hTlen]; omega)]
+        rw [List.take_reverse]
+        simp [hTlen]
+        congr 1
+        omega
+      rw [this] at hi
+      simp only [List.count_reverse] at hi
+      omega
+    · have : T.drop n = [] := List.drop_eq_nil_of_le (by omega)
+      simp [this]
+  have hscan : scanMatch tgt g zs (0 + 1) = some k := by
+    apply scanMatch_first_zero tgt g (Ne.symm hne) _ 1 k (by omega) hzk
+    · rw [htk1]
+      simp [List.count_append, hne, Ne.symm hne]
+      omega
+    · intro i hi
+      have : zs.take (i + 1) = T.take (i + 1) := by
+        rw [hT, List.take_take, Nat.min_eq_left (by omega)]
+      rw [this]
+      have e1 := count_take_add_drop g T (i + 1)
+      have e2 := count_take_add_drop tgt T (i + 1)
+      have := hsuffix (i + 1) (by omega)
+      omega
+  rw [← hzs, hscan]
+  simp
+  omega
+
+/-- so on a delimiter that has a match, `%` `%` is the identity -/
+theorem matchFrom_twice (gs : List Gr) (idx j : Nat) (h : matchFrom gs idx = some j) : matchFrom gs j = some idx := by
+  cases hg : gs[idx]? with
+  | none => simp [matchFrom, hg] at h
+  | some g =>
+    cases hp : partner g with
+    | none => simp [matchFrom, hg, hp] at h
+    | some tb =>
+      obtain ⟨tgt, b⟩ := tb
+      cases b with
+      | true => exact matchFrom_involutive_fwd gs idx j g tgt hg hp h
+      | false => exact matchFrom_involutive_bwd gs idx j g tgt hg hp h
+
+end Vicut.DelimThms
